@@ -93,12 +93,24 @@ func (s Scope) MatchedWith(name string, expr Expr) (Scope, error) {
 	}
 
 	if v, exists := s.Get(name); exists {
-		if v.String() != expr.String() {
+		if !sameBinding(v, expr) {
 			return Scope{}, fmt.Errorf("%s is redefined differently %s vs %s", name, v, expr)
 		}
 	}
 
 	return s.With(name, expr), nil
+}
+
+// sameBinding reports whether two bindings of one name agree: values are compared
+// with Equal (values that merely print alike, such as 1 and '1', differ); other
+// expressions are compared by their source form.
+func sameBinding(a, b Expr) bool {
+	if av, is := a.(Value); is {
+		if bv, is := b.(Value); is {
+			return av.Equal(bv)
+		}
+	}
+	return a.String() == b.String()
 }
 
 // Without returns a new scope with with all the old bindings except the ones
@@ -124,7 +136,7 @@ func (s Scope) MatchedUpdate(t Scope) (Scope, error) {
 	for e := s.Enumerator(); e.MoveNext(); {
 		name, v := e.Current()
 		if expr, exists := t.Get(name); exists {
-			if expr.String() != v.String() {
+			if !sameBinding(expr, v) {
 				return Scope{}, fmt.Errorf("the value of %s is different in both scopes", name)
 			}
 		}
